@@ -7,6 +7,17 @@ on *all* rooted labelled trees with 2..N nodes under *all* edge listings
 (exhaustive), plus a stream of non-tree digraphs (model fidelity outside the
 property's domain).  Oracle: the property statement evaluated on the
 implementation's own output.
+
+Second half (model coq/theories/C17/Walk.v, helper harness/c17_walk.py): the
+order USED FOR GROUPING.  Batches of 1-4 samples (parts undetected, matches
+below min_line_scores, empty frames) go through long-lived `PAFScorer`s
+(`group_instances` with synthetic matches, `predict` with drawn part affinity
+fields); the key order of the `connections` mapping that
+`assign_connections_to_instances` receives is recorded per sample and compared
+with `walk_batch` (Coq), judged by `walk_ok` (Coq) and by the Python oracle
+(every edge type with connections exactly once, parent edge first when it has
+a match in the sample, final instances == connected components of the accepted
+matches); a sample of batches is run a second time at the end.
 """
 from __future__ import annotations
 
@@ -14,9 +25,12 @@ import itertools
 import json
 
 from .. import core
+from .. import c17_walk as cw
 
 PROP_FILES = [core.THEORIES / "C17" / "Props.v"]
 PREAMBLE = "From SV Require Import C17.Toposort.\nFrom Coq Require Import List.\nImport ListNotations.\n"
+PREAMBLE_WALK = ("From SV Require Import C17.Toposort C17.Walk.\nFrom Coq Require Import List.\n"
+                 "Import ListNotations.\n")
 
 
 def rooted_trees(n):
@@ -155,24 +169,135 @@ def check(run: core.Run) -> int:
                 run.violation("failing-input", {"edges": es, "impl": ii, "oracle": bad})
     run.obligation("correspondence: toposort (Coq, vm_compute) == toposort_edges (/repo) on every case",
                    disagreements == 0, f"{disagreements} disagreements")
+    for kind, es in (cases[0], cases[n_exh // 2], cases[n_exh - 1], cases[n_exh + 1], cases[-1]):
+        run.sample({"kind": kind, "edges": es})
+    walk_stats = walk_stream(run, rng)
     run.coverage.update({
         "exhaustive": True,
         "exhaustive_scope": f"all rooted labelled trees on 2..{maxn} nodes x all edge listings = {n_exh} cases",
         "sampled_7node_trees": n7, "non_tree_digraphs": len(cases) - n_exh - n7,
         "pafscorer_checked": n_scorer, "disagreements": disagreements, "oracle_failures": oracle_fail,
+        "order_used_for_grouping": walk_stats,
         "rule": "case = edge list; non-trivial = a tree with >= 2 edges; distinct by the edge list itself",
     })
-    for kind, es in (cases[0], cases[n_exh // 2], cases[n_exh - 1], cases[n_exh + 1], cases[-1]):
-        run.sample({"kind": kind, "edges": es})
     run.trusted += ["networkx DiGraph insertion order / topological_sort / bfs_edges are modelled (Toposort.v) "
-                    "and compared exhaustively, not verified"]
+                    "and compared exhaustively, not verified",
+                    "the recorder wrapped around paf_grouping.assign_connections_to_instances / group_instances_batch "
+                    "(module globals) sees the mapping grouping iterates over; Python dict iteration order = key "
+                    "insertion order (modelled by dict_set in Walk.v)"]
     return run.finish()
+
+
+def walk_stream(run: core.Run, rng) -> dict:
+    """The order used for grouping: see the module docstring and harness/c17_walk.py."""
+    import numpy as np
+    import torch
+    import sleap_nn.inference.paf_grouping as pg
+
+    quick = run.tier == "quick"
+    cases = cw.gen_cases(rng, rooted_trees, quick)
+    kept = []                       # (case index, batch index, scorer, first result)
+    per_case = []                   # [(present, observed, oracle ok)] per case, all batches flattened
+    obs_problems, n_fail, n_samples, n_batches = [], 0, 0, 0
+    stats = {"group_cases": 0, "predict_cases": 0, "samples_with_absent_nonleaf_edge": 0, "multi_sample_batches": 0}
+
+    def report(c, bi, b, why, walk, note=None):
+        nonlocal n_fail
+        n_fail += 1
+        run.violation("failing-input", {
+            "what": "the edge order used for grouping (PAFScorer.group_instances / predict on a batch)",
+            "oracle": why, "batch": bi, "sample": b, "note": note,
+            "walked_edge_indices": None if walk is None else cw.walked_present(c, walk), "case": c})
+
+    for ci, c in enumerate(cases):
+        scorer = cw.make_scorer(c, pg)
+        stats[c["stream"] + "_cases"] += 1
+        items = []
+        es = [tuple(e) for e in c["edges"]]
+        nonleaf = {k for k, (_, v) in enumerate(es) if any(u == v for u, _ in es)}
+        for bi, batch in enumerate(c["batches"]):
+            res = cw.run_batch(c, batch, scorer, pg, torch, np)
+            kept.append((ci, bi, scorer, res))
+            n_batches += 1
+            stats["multi_sample_batches"] += len(batch) > 1
+            any_match = False
+            for kind, b, sin, walk, why in cw.judge_batch(c, batch, res):
+                if kind == "obs":
+                    obs_problems.append(why)
+                    continue
+                if kind == "fail":
+                    report(c, bi, b, why, walk)
+                if sin is not None and walk is not None:
+                    n_samples += 1
+                    present = sorted({m[0] for m in cw.accepted(sin["matches"], c["mls"])})
+                    any_match = any_match or bool(present)
+                    stats["samples_with_absent_nonleaf_edge"] += bool(present) and bool(nonleaf - set(present))
+                    items.append((present, cw.walked_present(c, walk), kind == "ok"))
+            run.case({"walk": c["edges"], "n": c["n_nodes"], "batch": batch}, nontrivial=len(batch) > 1 and any_match)
+        per_case.append(items)
+
+    # the Coq model on the same samples: walk_batch == observed order, walk_ok accepts the observed order
+    idx = [ci for ci, items in enumerate(per_case) if items and all(None not in o for _, o, _ in items)]
+    terms = [cw.model_term(cases[ci], [(p, o) for p, o, _ in per_case[ci]]) for ci in idx]
+    model = core.coq_eval_sharded(PREAMBLE_WALK, terms, "run_walk",
+                                  "rpair (ropt (rlist (rlist rnat))) (rlist rbool)", shard=300)
+    dis = 0
+    for ci, (mw, mok) in zip(idx, model):
+        for si, (present, obs, ok) in enumerate(per_case[ci]):
+            want = None if mw is None else mw[si]
+            if want != obs or (ok and not mok[si]):
+                dis += 1
+                if dis <= 3:
+                    run.log(f"walk: model/impl disagree on {cases[ci]['edges']} present {present}: "
+                            f"model {want} walk_ok {mok[si]} impl {obs}")
+                if ok:          # the property holds on this sample, yet the model says something else
+                    run.proof_broken.append(f"correspondence walk_batch vs the order walked by grouping on "
+                                            f"{cases[ci]['edges']} present {present}: model {want} impl {obs}")
+    run.obligation("correspondence: walk_batch (Coq, vm_compute) == key order with connections handed to "
+                   "assign_connections_to_instances, walk_ok accepts it, every sample of every batch",
+                   dis == 0, f"{dis} disagreements")
+    run.obligation("observation: assign_connections_to_instances / group_instances_batch entered once per sample / "
+                   "batch", not obs_problems, "; ".join(obs_problems[:3]))
+
+    # second run of a sample of batches on the SAME scorer objects, after everything else ran
+    again = rng.sample(range(len(kept)), min(len(kept), 150 if quick else 600))
+    changed = 0
+    for q in again:
+        ci, bi, scorer, first = kept[q]
+        c, batch = cases[ci], cases[ci]["batches"][bi]
+        res = cw.run_batch(c, batch, scorer, pg, torch, np)
+        same = all(json.dumps(res.get(k), sort_keys=True) == json.dumps(first.get(k), sort_keys=True)
+                   for k in ("err", "walks", "out"))
+        if not same:
+            changed += 1
+            bad = [v for v in cw.judge_batch(c, batch, res) if v[0] == "fail"]
+            for kind, b, sin, walk, why in bad[:1]:
+                report(c, bi, b, why, walk, note="second call on the same PAFScorer after other batches")
+            if not bad:
+                run.proof_broken.append(f"same batch, same PAFScorer, different result on the second call "
+                                        f"({c['edges']}, batch {bi})")
+    run.obligation("same batch on the same PAFScorer gives the same walked order and instances again", changed == 0,
+                   f"{changed} of {len(again)} changed")
+    stats.update({"batches": n_batches, "samples": n_samples, "oracle_failures": n_fail, "disagreements": dis,
+                  "rerun_batches": len(again), "rerun_changed": changed})
+    for c in (cases[0], cases[len(cases) // 3], cases[-1]):
+        run.sample({"kind": "walk/" + c["stream"], "edges": c["edges"],
+                    "batch_sizes": [len(b) for b in c["batches"]],
+                    "styles": [[s["style"] for s in b] for b in c["batches"]]}, limit=9)
+    return stats
 
 
 def replay(run: core.Run, path: str) -> int:
     core.impl_env_setup()
     from sleap_nn.inference.paf_grouping import toposort_edges, EdgeType
     rep = json.load(open(path))
+    if "case" in rep:
+        import numpy as np
+        import torch
+        import sleap_nn.inference.paf_grouping as pg
+        bad = cw.replay_case(rep["case"], pg, torch, np)
+        print(json.dumps({"edges": rep["case"]["edges"], "failures": bad}))
+        return 1 if bad else 0
     es = [tuple(e) for e in rep["edges"]]
     out = list(toposort_edges([EdgeType(u, v) for u, v in es]))
     bad = oracle(es, out)
